@@ -257,29 +257,20 @@ func c19Debouncer(p *chk.Prog, r *chk.Report) {
 // declaredOutsideLoop: the variable is declared before the for/select loop (its
 // value survives iterations).
 func declaredOutsideLoop(lf *chk.Fn, o types.Object) bool {
+	// declared in the function (or literal) but in none of its loops: the value survives from one event to the next
 	ok := false
-	for _, st := range lf.Body.List {
-		if ds, isDecl := st.(*ast.DeclStmt); isDecl {
-			ast.Inspect(ds, func(n ast.Node) bool {
-				if id, isID := n.(*ast.Ident); isID && lf.Info().Defs[id] == o {
-					ok = true
-				}
-				return true
-			})
+	ast.Inspect(lf.Body, func(n ast.Node) bool {
+		if id, isID := n.(*ast.Ident); isID && lf.Info().Defs[id] == o {
+			ok = lf.LoopOf(id) == nil
+			return false
 		}
-		if as, isAs := st.(*ast.AssignStmt); isAs {
-			for _, l := range as.Lhs {
-				if id, isID := l.(*ast.Ident); isID && lf.Info().Defs[id] == o {
-					ok = true
-				}
-			}
-		}
-	}
+		return true
+	})
 	return ok
 }
 
 func c19Submit(p *chk.Prog, r *chk.Report) {
-	x := r.Rule("SUBMIT", "B path", "in package frr every function that writes sessionManager.sessions / bfdProfiles / extraConfig or session.advertised (Set, Close through deleteSession, NewSession through addSession, SyncExtraInfo, SyncBFDProfiles) calls createConfig after the write and, on every nil-error return, has sent reloadEvent{config: <that result>} on sm.reloadConfig", 10)
+	x := r.Rule("SUBMIT", "B path", "in package frr every function that writes sessionManager.sessions / bfdProfiles / extraConfig or session.advertised (Set, Close and NewSession through the (un)registration of the session, SyncExtraInfo, SyncBFDProfiles) calls createConfig after the write and, on every nil-error return, has sent reloadEvent{config: <that result>} on sm.reloadConfig", 10)
 	targets := []struct{ recv, name string }{{"session", "Set"}, {"session", "Close"}, {"sessionManager", "NewSession"}, {"sessionManager", "SyncExtraInfo"}, {"sessionManager", "SyncBFDProfiles"}}
 	for _, t := range targets {
 		f := need(x, p, frrPkg, t.recv, t.name)
@@ -316,7 +307,19 @@ func c19Submit(p *chk.Prog, r *chk.Report) {
 					}
 				}
 			}
-			return f.ContainsPat("SM.addSession(S)")(n) || f.ContainsPat("SM.deleteSession(S)")(n)
+			// registering / unregistering a session (the two one-purpose helpers that do it are expanded by the
+			// normalisation)
+			if as, ok := n.(*ast.AssignStmt); ok {
+				for _, l := range as.Lhs {
+					if f.MatchNew("SM.sessions[K]", l) != nil {
+						return true
+					}
+				}
+			}
+			if es, ok := n.(*ast.ExprStmt); ok && f.MatchNew("delete(SM.sessions, K)", es.X) != nil {
+				return true
+			}
+			return false
 		}
 		muts := g.Find(func(n ast.Node) bool {
 			_, isStmt := n.(ast.Stmt)
@@ -328,6 +331,9 @@ func c19Submit(p *chk.Prog, r *chk.Report) {
 		for _, gen := range gens {
 			// every path from the entry to the generation passes a mutation, and no mutation follows the generation before the send
 			w1 := g.MustPass(chk.Site{}, func(n ast.Node) bool { return n == gen.Top }, false, isMut)
+			if w1.Found && g.Dominated(gen, chk.GEvent(isMut)) {
+				w1.Found = false // the paths around the change are infeasible (an argument check that cannot fail here, or it returns first)
+			}
 			w2 := (&chk.Walk{G: g, From: gen, Stop: isSend, Hit: func(n ast.Node) bool {
 				if !isMut(n) {
 					return false
